@@ -1,0 +1,174 @@
+//! C01 — dialing by public key authenticates the remote endpoint.
+//!
+//! Thin public wrappers around crate-private TLS items: `tls::name::{encode, decode}`,
+//! the certificate verifiers and the certificate resolver held by a [`TlsConfig`] built
+//! exactly as `Builder::bind` builds it.  Errors are returned as their `Debug` text.
+#![cfg(with_crypto_provider)]
+
+use ed25519_dalek::{VerifyingKey, pkcs8::DecodePublicKey};
+use iroh_base::{EndpointId, SecretKey};
+use rustls::{
+    DigitallySignedStruct, SignatureScheme,
+    internal::msgs::codec::Codec,
+    pki_types::{CertificateDer, ServerName, UnixTime},
+};
+
+use crate::tls::{DEFAULT_MAX_TLS_TICKETS, TlsConfig, default_provider, name};
+
+/// `tls::name::encode`.
+pub fn name_encode(id: EndpointId) -> String {
+    name::encode(id)
+}
+
+/// `tls::name::decode`.
+pub fn name_decode(s: &str) -> Option<EndpointId> {
+    name::decode(s)
+}
+
+/// How rustls classifies a server-name string: 0 = DNS name, 1 = IP address,
+/// 2 = not a `ServerName` (`ServerName::try_from` fails).
+pub fn server_name_kind(s: &str) -> u8 {
+    match ServerName::try_from(s) {
+        Ok(ServerName::DnsName(_)) => 0,
+        Ok(ServerName::IpAddress(_)) => 1,
+        _ => 2,
+    }
+}
+
+/// The TLS configuration of an endpoint holding `secret` (same constructor as `Builder::bind`).
+pub struct Tls(TlsConfig);
+
+fn certs(v: &[Vec<u8>]) -> Vec<CertificateDer<'static>> {
+    v.iter().map(|c| CertificateDer::from(c.clone())).collect()
+}
+
+/// `DigitallySignedStruct` has no public constructor: decode it from its wire form
+/// (scheme, u16 length, signature bytes).
+fn dss(scheme: u16, sig: &[u8]) -> Option<DigitallySignedStruct> {
+    let mut b = scheme.to_be_bytes().to_vec();
+    b.extend_from_slice(&u16::try_from(sig.len()).ok()?.to_be_bytes());
+    b.extend_from_slice(sig);
+    DigitallySignedStruct::read_bytes(&b).ok()
+}
+
+fn dbg<T>(r: Result<T, rustls::Error>) -> Result<(), String> {
+    r.map(|_| ()).map_err(|e| format!("{e:?}"))
+}
+
+impl Tls {
+    pub fn new(secret: SecretKey) -> Self {
+        Tls(TlsConfig::new(
+            secret,
+            DEFAULT_MAX_TLS_TICKETS,
+            default_provider(),
+        ))
+    }
+
+    /// `ServerCertVerifier::verify_server_cert` of the endpoint's server-certificate verifier.
+    /// `Err("InvalidServerName")` when `server_name` is not accepted by `ServerName::try_from`
+    /// (the verifier is not reached).
+    pub fn verify_server_cert(
+        &self,
+        end_entity: &[u8],
+        intermediates: &[Vec<u8>],
+        server_name: &str,
+    ) -> Result<(), String> {
+        let Ok(sn) = ServerName::try_from(server_name) else {
+            return Err("InvalidServerName".to_string());
+        };
+        dbg(self.0.verif_server_verifier().verify_server_cert(
+            &CertificateDer::from(end_entity),
+            &certs(intermediates),
+            &sn,
+            &[],
+            UnixTime::now(),
+        ))
+    }
+
+    /// `ClientCertVerifier::verify_client_cert` of the endpoint's client-certificate verifier.
+    pub fn verify_client_cert(
+        &self,
+        end_entity: &[u8],
+        intermediates: &[Vec<u8>],
+    ) -> Result<(), String> {
+        dbg(self.0.verif_client_verifier().verify_client_cert(
+            &CertificateDer::from(end_entity),
+            &certs(intermediates),
+            UnixTime::now(),
+        ))
+    }
+
+    /// `verify_tls13_signature` (`tls12 = false`) or `verify_tls12_signature` of the
+    /// verifier checking servers (`checks_server = true`) or clients.
+    pub fn verify_signature(
+        &self,
+        checks_server: bool,
+        tls12: bool,
+        message: &[u8],
+        cert: &[u8],
+        scheme: u16,
+        sig: &[u8],
+    ) -> Result<(), String> {
+        let Some(dss) = dss(scheme, sig) else {
+            return Err("InvalidDss".to_string());
+        };
+        let cert = CertificateDer::from(cert);
+        dbg(match (checks_server, tls12) {
+            (true, false) => self
+                .0
+                .verif_server_verifier()
+                .verify_tls13_signature(message, &cert, &dss),
+            (true, true) => self
+                .0
+                .verif_server_verifier()
+                .verify_tls12_signature(message, &cert, &dss),
+            (false, false) => self
+                .0
+                .verif_client_verifier()
+                .verify_tls13_signature(message, &cert, &dss),
+            (false, true) => self
+                .0
+                .verif_client_verifier()
+                .verify_tls12_signature(message, &cert, &dss),
+        })
+    }
+
+    /// The certificate chain the endpoint presents (as client and as server).
+    pub fn own_certs(&self) -> Vec<Vec<u8>> {
+        let key = self.0.verif_cert_resolver().resolve(&[], &[]);
+        key.map(|k| k.cert.iter().map(|c| c.as_ref().to_vec()).collect())
+            .unwrap_or_default()
+    }
+
+    /// Signs `message` with the endpoint's TLS signing key: `(scheme, signature)`.
+    pub fn sign(&self, message: &[u8]) -> Option<(u16, Vec<u8>)> {
+        let key = self.0.verif_cert_resolver().resolve(&[], &[])?;
+        let signer = key.key.choose_scheme(&[SignatureScheme::ED25519])?;
+        let sig = signer.sign(message).ok()?;
+        Some((u16::from(signer.scheme()), sig))
+    }
+
+    /// Both verifiers insist on raw public keys; the schemes they advertise.
+    pub fn verifier_facts(&self) -> (bool, bool, Vec<u16>, Vec<u16>) {
+        let s = self.0.verif_server_verifier();
+        let c = self.0.verif_client_verifier();
+        (
+            s.requires_raw_public_keys(),
+            c.requires_raw_public_keys(),
+            s.supported_verify_schemes().into_iter().map(u16::from).collect(),
+            c.supported_verify_schemes().into_iter().map(u16::from).collect(),
+        )
+    }
+}
+
+/// Mirror of the certificate handling in `remote_id_from_noq_conn`
+/// (endpoint/connection.rs: exactly one certificate, `VerifyingKey::from_public_key_der`,
+/// `EndpointId::from_verifying_key`); the function itself needs a live `noq::Connection`
+/// and is exercised by the end-to-end dials.
+pub fn remote_id_of_certs(certs: &[Vec<u8>]) -> Option<EndpointId> {
+    if certs.len() != 1 {
+        return None;
+    }
+    let key = VerifyingKey::from_public_key_der(&certs[0]).ok()?;
+    Some(EndpointId::from_verifying_key(key))
+}
